@@ -318,7 +318,7 @@ fn main() {
     });
 
     // S6: sparse tails: head | deciding digit | zeros with one non-zero digit at every position
-    let tail_lens: Vec<usize> = if tier.is_thorough() { (0..=72).chain([100, 127, 128, 129, 256]).collect() } else { (0..=40).chain([63, 64, 65]).collect() };
+    let tail_lens: Vec<usize> = if tier.is_thorough() { (0..=72).chain([100, 127, 128, 129, 255, 256, 257, 1023, 1024, 1025, 1100, 1500, 2100, 4100]).collect() } else { (0..=40).chain([63, 64, 65, 257, 1100, 1500]).collect() };
     let tails = sparse_tails(&tail_lens);
     run.bound("S6_tail_lengths", json!(tail_lens));
     run.par("S6 sparse tails (one non-zero digit at every position)", tails.len(), |i| {
